@@ -59,6 +59,7 @@ type Case struct {
 	Slices   int      `json:"slices,omitempty"`
 	Check    string   `json:"check,omitempty"`
 	Rule     string   `json:"rule,omitempty"`
+	Opts     Opts     `json:"opts,omitempty"`
 	Class    string   `json:"class,omitempty"`
 }
 
@@ -444,29 +445,75 @@ func checkFailover(c Case) (inf info, err error) {
 // ---------------------------------------------------------------------------
 // part 2
 
+// Opts: the documented settings of the checks of part 2 (config `check "..." {}` / rule options), all optional.
+type Opts struct {
+	// promql/series (passed through the context, as `check "promql/series" { ... }` does)
+	IgnoreMetrics     []string            `json:"ignore_metrics,omitempty"`
+	LookbackRange     string              `json:"lookback_range,omitempty"`
+	LookbackStep      string              `json:"lookback_step,omitempty"`
+	IgnoreLabelsValue map[string][]string `json:"ignore_labels_value,omitempty"`
+	// options shared by the rule-level checks
+	Severity string `json:"severity,omitempty"` // bug | warning | info ("" = the default used before)
+	Comment  string `json:"comment,omitempty"`
+	// alerts/count
+	AlertsRangeMin, AlertsStepMin, AlertsResolveMin, AlertsMinCount int
+	// query/cost
+	CostMaxSeries, CostMaxTotal, CostMaxPeak, CostMaxDurationSec int
+	// promql/range_query (days; large enough that no expression of the pool exceeds it offline)
+	RangeLimitDays int `json:"range_limit_days,omitempty"`
+}
+
+func (o Opts) severity(def checks.Severity) checks.Severity {
+	switch o.Severity {
+	case "bug":
+		return checks.Bug
+	case "warning":
+		return checks.Warning
+	case "info":
+		return checks.Information
+	}
+	return def
+}
+
+func orDefault(v, def int) int {
+	if v > 0 {
+		return v
+	}
+	return def
+}
+
 type checkSpec struct {
 	name string
-	mk   func(*promapi.FailoverGroup) checks.RuleChecker
+	mk   func(*promapi.FailoverGroup, Opts) checks.RuleChecker
 }
 
 var checkSpecs = []checkSpec{
-	{"alerts/absent", func(p *promapi.FailoverGroup) checks.RuleChecker { return checks.NewAlertsAbsentCheck(p) }},
-	{"alerts/count", func(p *promapi.FailoverGroup) checks.RuleChecker {
-		return checks.NewAlertsCheck(p, 6*time.Hour, 5*time.Minute, 5*time.Minute, 0, "", checks.Information)
+	{"alerts/absent", func(p *promapi.FailoverGroup, _ Opts) checks.RuleChecker { return checks.NewAlertsAbsentCheck(p) }},
+	{"alerts/count", func(p *promapi.FailoverGroup, o Opts) checks.RuleChecker {
+		return checks.NewAlertsCheck(p,
+			time.Duration(orDefault(o.AlertsRangeMin, 360))*time.Minute,
+			time.Duration(orDefault(o.AlertsStepMin, 5))*time.Minute,
+			time.Duration(orDefault(o.AlertsResolveMin, 5))*time.Minute,
+			o.AlertsMinCount, o.Comment, o.severity(checks.Information))
 	}},
-	{"alerts/external_labels", func(p *promapi.FailoverGroup) checks.RuleChecker { return checks.NewAlertsExternalLabelsCheck(p) }},
-	{"labels/conflict", func(p *promapi.FailoverGroup) checks.RuleChecker { return checks.NewLabelsConflictCheck(p) }},
-	{"promql/counter", func(p *promapi.FailoverGroup) checks.RuleChecker { return checks.NewCounterCheck(p) }},
-	{"promql/range_query", func(p *promapi.FailoverGroup) checks.RuleChecker {
-		return checks.NewRangeQueryCheck(p, 0, "", checks.Warning)
+	{"alerts/external_labels", func(p *promapi.FailoverGroup, _ Opts) checks.RuleChecker {
+		return checks.NewAlertsExternalLabelsCheck(p)
 	}},
-	{"promql/rate", func(p *promapi.FailoverGroup) checks.RuleChecker { return checks.NewRateCheck(p) }},
-	{"promql/series", func(p *promapi.FailoverGroup) checks.RuleChecker { return checks.NewSeriesCheck(p) }},
-	{"promql/vector_matching", func(p *promapi.FailoverGroup) checks.RuleChecker { return checks.NewVectorMatchingCheck(p) }},
-	{"query/cost", func(p *promapi.FailoverGroup) checks.RuleChecker {
-		return checks.NewCostCheck(p, 100, 0, 0, 0, "", checks.Bug)
+	{"labels/conflict", func(p *promapi.FailoverGroup, _ Opts) checks.RuleChecker { return checks.NewLabelsConflictCheck(p) }},
+	{"promql/counter", func(p *promapi.FailoverGroup, _ Opts) checks.RuleChecker { return checks.NewCounterCheck(p) }},
+	{"promql/range_query", func(p *promapi.FailoverGroup, o Opts) checks.RuleChecker {
+		return checks.NewRangeQueryCheck(p, time.Duration(o.RangeLimitDays)*24*time.Hour, o.Comment, o.severity(checks.Warning))
 	}},
-	{"rule/duplicate", func(p *promapi.FailoverGroup) checks.RuleChecker { return checks.NewRuleDuplicateCheck(p) }},
+	{"promql/rate", func(p *promapi.FailoverGroup, _ Opts) checks.RuleChecker { return checks.NewRateCheck(p) }},
+	{"promql/series", func(p *promapi.FailoverGroup, _ Opts) checks.RuleChecker { return checks.NewSeriesCheck(p) }},
+	{"promql/vector_matching", func(p *promapi.FailoverGroup, _ Opts) checks.RuleChecker {
+		return checks.NewVectorMatchingCheck(p)
+	}},
+	{"query/cost", func(p *promapi.FailoverGroup, o Opts) checks.RuleChecker {
+		return checks.NewCostCheck(p, orDefault(o.CostMaxSeries, 100), o.CostMaxTotal, o.CostMaxPeak,
+			time.Duration(o.CostMaxDurationSec)*time.Second, o.Comment, o.severity(checks.Bug))
+	}},
+	{"rule/duplicate", func(p *promapi.FailoverGroup, _ Opts) checks.RuleChecker { return checks.NewRuleDuplicateCheck(p) }},
 }
 
 func specByName(n string) *checkSpec {
@@ -534,7 +581,18 @@ func checkChecks(c Case) (inf info, err error) {
 			res <- o
 		}()
 		ctx := context.WithValue(context.Background(), promapi.AllPrometheusServers, []*promapi.FailoverGroup{g.fg})
-		chk := spec.mk(g.fg)
+		if c.Check == "promql/series" && (len(c.Opts.IgnoreMetrics) > 0 || c.Opts.LookbackRange != "" || c.Opts.LookbackStep != "" || len(c.Opts.IgnoreLabelsValue) > 0) {
+			settings := &checks.PromqlSeriesSettings{
+				IgnoreMetrics: c.Opts.IgnoreMetrics, LookbackRange: c.Opts.LookbackRange, LookbackStep: c.Opts.LookbackStep,
+				IgnoreLabelsValue: c.Opts.IgnoreLabelsValue,
+			}
+			if err := settings.Validate(); err != nil {
+				o.pan = fmt.Sprintf("harness: generated promql/series settings do not validate: %v", err)
+				return
+			}
+			ctx = context.WithValue(ctx, checks.SettingsKey("promql/series"), settings)
+		}
+		chk := spec.mk(g.fg, c.Opts)
 		for _, e := range entries {
 			if e.Rule.Error.Err != nil {
 				continue
@@ -696,10 +754,25 @@ func genRule(t *rapid.T, check string) string {
 	if pref := preferred[check]; len(pref) > 0 && rapid.IntRange(0, 2).Draw(t, "preferred") > 0 {
 		expr = exprPool[rapid.SampledFrom(pref).Draw(t, "prefExpr")]
 	}
+	// control comments that cover only PART of the rule (promql/series reads them itself): they must match a
+	// selector of the expression, otherwise the check rightly reports the comment - which is not an outage matter
+	ctl := ""
+	if check == "promql/series" {
+		switch k := rapid.IntRange(0, 5).Draw(t, "control"); {
+		case k == 0 && strings.Contains(expr, " on(") && strings.Contains(expr, "bar"): // bar is joined: one of two checked selectors
+			ctl = "  # pint disable promql/series(bar)\n"
+		case k == 1 && strings.Contains(expr, "job="):
+			ctl = "  # pint rule/set promql/series ignore/label-value job\n"
+		case k == 2 && (strings.Contains(expr, "foo") || strings.Contains(expr, "up")) && !strings.Contains(expr, "absent"):
+			ctl = "  # pint rule/set promql/series min-age 3d\n"
+		case k == 3 && strings.Contains(expr, " on(") && strings.Contains(expr, "bar"):
+			ctl = "  # pint rule/set promql/series(bar) min-age 1d\n"
+		}
+	}
 	var b strings.Builder
 	alertOnly := check == "alerts/absent" || check == "alerts/count" || check == "alerts/external_labels"
 	if rapid.IntRange(0, 2).Draw(t, "ruleKind") > 0 || (alertOnly && rapid.IntRange(0, 3).Draw(t, "alertAnyway") > 0) {
-		b.WriteString("- alert: C15Alert\n  expr: " + expr + "\n")
+		b.WriteString("- alert: C15Alert\n" + ctl + "  expr: " + expr + "\n")
 		if f := rapid.SampledFrom([]string{"", "1m", "5m"}).Draw(t, "for"); f != "" {
 			b.WriteString("  for: " + f + "\n")
 		}
@@ -718,7 +791,7 @@ func genRule(t *rapid.T, check string) string {
 			b.WriteString("  annotations:\n    summary: plain text\n    link: https://example.com/runbook\n")
 		}
 	} else {
-		b.WriteString("- record: job:c15:rule\n  expr: " + expr + "\n")
+		b.WriteString("- record: job:c15:rule\n" + ctl + "  expr: " + expr + "\n")
 		if rapid.Bool().Draw(t, "labels") || (check == "labels/conflict" && rapid.Bool().Draw(t, "labelsAnyway")) {
 			b.WriteString("  labels:\n    cluster: prod\n")
 		}
@@ -728,7 +801,13 @@ func genRule(t *rapid.T, check string) string {
 
 func genChecks(t *rapid.T) Case {
 	c := Case{Kind: "checks"}
-	c.Check = checkSpecs[rapid.IntRange(0, len(checkSpecs)-1).Draw(t, "check")].name
+	// promql/series has by far the most settings and code paths: drawn three times as often
+	ci := rapid.IntRange(0, len(checkSpecs)+1).Draw(t, "check")
+	if ci >= len(checkSpecs) {
+		c.Check = "promql/series"
+	} else {
+		c.Check = checkSpecs[ci].name
+	}
 	n := rapid.IntRange(1, 3).Draw(t, "upstreams")
 	for i := 0; i < n; i++ {
 		// timeout is rare here: an outage of n timing-out upstreams costs n seconds per API call of the check
@@ -740,7 +819,42 @@ func genChecks(t *rapid.T) Case {
 	}
 	c.Required = rapid.Bool().Draw(t, "required")
 	c.Rule = genRule(t, c.Check)
+	c.Opts = genOpts(t, c.Check)
 	return c
+}
+
+// genOpts draws the documented settings of a check (half of the cases keep the defaults).
+func genOpts(t *rapid.T, check string) (o Opts) {
+	if rapid.Bool().Draw(t, "defaults") {
+		return o
+	}
+	sev := func() string { return rapid.SampledFrom([]string{"", "bug", "warning", "info"}).Draw(t, "severity") }
+	comment := func() string { return rapid.SampledFrom([]string{"", "see the runbook"}).Draw(t, "comment") }
+	switch check {
+	case "promql/series":
+		o.IgnoreMetrics = rapid.SampledFrom([][]string{nil, {"foo.*"}, {"up", "bar"}, {".*"}, {"nomatch_.+"}, {"foo", "http_requests_total"}}).Draw(t, "ignoreMetrics")
+		o.LookbackRange = rapid.SampledFrom([]string{"", "1d", "3d", "6h"}).Draw(t, "lookbackRange")
+		o.LookbackStep = rapid.SampledFrom([]string{"", "1m", "10m"}).Draw(t, "lookbackStep")
+		if rapid.Bool().Draw(t, "ignoreLabelsValue") {
+			o.IgnoreLabelsValue = map[string][]string{"foo": {"job"}, "bar{job=\"a\"}": {"job"}}
+		}
+	case "alerts/count":
+		o.AlertsRangeMin = rapid.SampledFrom([]int{0, 60, 360, 1440}).Draw(t, "range")
+		o.AlertsStepMin = rapid.SampledFrom([]int{0, 1, 5}).Draw(t, "step")
+		o.AlertsResolveMin = rapid.SampledFrom([]int{0, 1, 10}).Draw(t, "resolve")
+		o.AlertsMinCount = rapid.SampledFrom([]int{0, 1, 50}).Draw(t, "minCount")
+		o.Severity, o.Comment = sev(), comment()
+	case "query/cost":
+		o.CostMaxSeries = rapid.SampledFrom([]int{0, 1, 1000}).Draw(t, "maxSeries")
+		o.CostMaxTotal = rapid.SampledFrom([]int{0, 10}).Draw(t, "maxTotal")
+		o.CostMaxPeak = rapid.SampledFrom([]int{0, 10}).Draw(t, "maxPeak")
+		o.CostMaxDurationSec = rapid.SampledFrom([]int{0, 1}).Draw(t, "maxDuration")
+		o.Severity, o.Comment = sev(), comment()
+	case "promql/range_query":
+		o.RangeLimitDays = rapid.SampledFrom([]int{0, 400}).Draw(t, "limit")
+		o.Severity, o.Comment = sev(), comment()
+	}
+	return o
 }
 
 // ---------------------------------------------------------------------------
@@ -751,7 +865,7 @@ func knownClass(c Case) string { return "" }
 var wsRe = regexp.MustCompile(`\s+`)
 
 func caseKey(c Case) string {
-	return fmt.Sprintf("%s|%s|%v|%v|%d|%s|%s", c.Kind, c.Endpoint, c.Modes, c.Required, c.Slices, c.Check, c.Rule)
+	return fmt.Sprintf("%s|%s|%v|%v|%d|%s|%s|%+v", c.Kind, c.Endpoint, c.Modes, c.Required, c.Slices, c.Check, c.Rule, c.Opts)
 }
 
 type recorder struct {
